@@ -514,6 +514,14 @@ def _run_one(h, built, prop_id, tier):
                goto=g)
     rec["_h"] = h
     rec["_info"] = info
+    if status == "PASS" and not os.environ.get("VERIF_KEEP_WORK"):
+        # disk: the goto binary and CBMC's JSON log (tens of MB per harness) are only needed to extract a trace from a failure
+        for f in os.listdir(wd):
+            if f != "cmd.txt":
+                try:
+                    os.remove(os.path.join(wd, f))
+                except OSError:
+                    pass
     return rec
 
 
